@@ -266,3 +266,21 @@ func goaRequired(svc string, method int, where string, names []string) ([]string
 	}
 	return out, true
 }
+
+// codegenRequired reads the Required flag of the request metadata entries in goa's
+// gRPC code generation data (what the request decoder template branches on).
+func codegenRequired(svc string, method int, names []string) ([]string, bool) {
+	sd := grpccodegen.GRPCServices.Get(svc)
+	if sd == nil || method >= len(sd.Endpoints) || sd.Endpoints[method].Request == nil {
+		return nil, false
+	}
+	var out []string
+	for _, n := range names {
+		for _, md := range sd.Endpoints[method].Request.Metadata {
+			if md.AttributeName == n && md.Required {
+				out = append(out, n)
+			}
+		}
+	}
+	return out, true
+}
